@@ -7,6 +7,10 @@ require (
 	github.com/ethereum/go-ethereum v1.9.22
 )
 
-require golang.org/x/crypto v0.0.0-20200622213623-75b288015ac9 // indirect
+require (
+	github.com/emirpasic/gods v1.12.0 // indirect
+	github.com/status-im/keycard-go v0.0.0-20190424133014-d95853db0f48 // indirect
+	golang.org/x/crypto v0.0.0-20200622213623-75b288015ac9 // indirect
+)
 
 replace github.com/Fantom-foundation/lachesis-base => /repo
